@@ -1,6 +1,8 @@
 package main
 
 import (
+	"encoding/json"
+
 	"verif/harness/core"
 )
 
@@ -80,3 +82,5 @@ func (r *ShardResult) merge(o *ShardResult, prefix string) {
 		r.Bounds[prefix+k] = v
 	}
 }
+
+func jsonMarshal(v interface{}) ([]byte, error) { return json.Marshal(v) }
